@@ -11,7 +11,7 @@ Protocol for the scheduled-operation → `NpuOperation` link (writer: `harness/h
 One token per `key=value`; no spaces inside a value.  Sub-fields are separated by `/`, numbers by `,`; `n` is `None`.
 A float is `<binary64 bits>:<kind>` (kind 0 Python float / int, 1 numpy.float32, 2 numpy.float64).
 
-answer: `model=<eq | diff:<field>~<field>… | err:kind> | roles=<n msgs…|-> | weights=<…|-> | dma=<…|-> | clamp=<…|->`
+answer: `model=<eq | diff:<field>~<field>… | err:kind> | roles=<n msgs…|-> | weights=<…|-> | dma=<…|-> | clamp=<…|-> | fm=<…|->`
 (`-`: the predicate does not apply to this operation).
 -/
 namespace VelaVerif.Handlers.NpuOpBuild
@@ -370,6 +370,24 @@ def clampVerdict (toks : List String) (real : Op) (rx : RealX) : Option String :
     | _ => none
   | _, _ => some "-"
 
+/-- `ifmalloc=<addr>,<size>` `ifm2alloc=<addr>,<size>|n` `ofmalloc=<addr>,<size>`: allocations of the tensors behind the
+    command's feature maps *after* the conversion (so in the roles the operation gives them) -/
+def fmVerdict (toks : List String) (real : Op) : Option String :=
+  match real, kv toks "ofmalloc" with
+  | .block op, some oa => do
+    let pair (s : String) : Option (Int × Int) := do
+      match ← intsC s with
+      | [a, b] => some (a, b)
+      | _ => none
+    let (oaA, oaS) ← pair oa
+    let (iaA, iaS) ← pair (← kv toks "ifmalloc")
+    let i2 ← optOf pair (← kv toks "ifm2alloc")
+    let m2 := match op.ifm2, op.ifm2Scalar, i2 with
+      | some f2, none, some (a, s) => NpuOpSpec.footprintMsgs "ifm2" f2 a s
+      | _, _, _ => []
+    some (NpuOpSpec.verdict (NpuOpSpec.footprintMsgs "ifm" op.ifm iaA iaS ++ m2 ++ NpuOpSpec.footprintMsgs "ofm" op.ofm oaA oaS))
+  | _, _ => some "-"
+
 def handle : List String → Option String
   | "hl2npu" :: toks => do
     let (arch, lutBase, lutSize) ← parseArch (← kv toks "arch")
@@ -382,7 +400,7 @@ def handle : List String → Option String
       | _ => none
     some (modelVerdict cmd arch real rx ++ " | roles=" ++ (← rolesVerdict toks real rx) ++ " | weights=" ++
           (← weightsVerdict toks arch.ncores real) ++ " | dma=" ++ (← dmaVerdict toks arch.ncores lutBase lutSize real) ++
-          " | clamp=" ++ (← clampVerdict toks real rx))
+          " | clamp=" ++ (← clampVerdict toks real rx) ++ " | fm=" ++ (← fmVerdict toks real))
   | "hl2npu_f" :: "qdiv" :: f :: s :: _ => do
     some (match FloatExact.qdiv (← parseNat? f) (← parseNat? s) with | some q => toString q | none => "none")
   | "hl2npu_f" :: "mul" :: s :: k :: ik :: q :: _ => do
